@@ -21,6 +21,7 @@ struct Adapter {
   bool accumulates    = false; // memory is not reused before clear() (bump heaps)
   bool deallocReuses  = true;  // a deallocated block may be handed out again
   bool hasExtra       = false;
+  bool pageSized      = false; // every block costs >= 2 MB
   size_t liveBytesCap = 24u << 20;
   unsigned liveCap    = 300;
   size_t accumCap     = 48u << 20; // accumulating heaps: clear when this much was handed out
@@ -235,7 +236,7 @@ inline CaseResult runStorm(Harness& H, long k, Rng& rng, Adapter& A) {
   n             = std::max(1u, std::min(n, maxT));
   unsigned ops  = H.thorough ? (unsigned)rng.pick({300, 1500, 6000}) : (unsigned)rng.pick({200, 800, 2500});
   ops           = (unsigned)std::min<long>(ops, H.paramInt("maxops", 1000000));
-  if (A.cost(A.reqForClass(0)) >= (1u << 20))
+  if (A.pageSized)
     ops = std::min(ops, 120u); // page-sized blocks: memory traffic, keep it short
   unsigned delayPct = (unsigned)rng.pick({0, 0, 2, 10});
   unsigned spinProb = (unsigned)rng.pick({0, 0, 2048, 16384});
